@@ -65,12 +65,20 @@ TRANSFORMS = {"se3": geom.sim_matrix(T_R, T_t, 1.0),
               "sim3": geom.sim_matrix(T_R, T_t, 2.0)}
 
 
+EPOCH = 1.5e9
+
+
 def write_fixture(wd):
     ref, est1, est2 = fixture()
     for name, t in (("ref", ref), ("est1", est1), ("est2", est2)):
         rfiles.write_tum(os.path.join(wd, name + ".txt"), t.stamps, t.ps, t.Rs)
         rfiles.write_euroc(os.path.join(wd, name + ".csv"),
                            [int(round(x * 1e9)) for x in t.stamps], t.ps, t.Rs)
+        # the same data with epoch-sized timestamps
+        es = [x + EPOCH for x in t.stamps]
+        rfiles.write_tum(os.path.join(wd, name + "_e.txt"), es, t.ps, t.Rs)
+        rfiles.write_euroc(os.path.join(wd, name + "_e.csv"),
+                           [int(round(x * 1e9)) for x in es], t.ps, t.Rs)
     # KITTI: equal lengths required for alignment -> first 6 poses of each
     for name, t in (("ref", ref), ("est1", est1), ("est2", est2)):
         rfiles.write_kitti(os.path.join(wd, name + ".kit"), t.ps[:6], t.Rs[:6])
@@ -89,10 +97,13 @@ def write_fixture(wd):
             json.dump(d, f)
 
 
-def load_model(fmt):
+def load_model(fmt, epoch=0.0):
     ref, est1, est2 = fixture()
     if fmt == "kitti":
         return [RTraj(t.Rs[:6], t.ps[:6], None) for t in (ref, est1, est2)]
+    if epoch:
+        for t in (ref, est1, est2):
+            t.stamps = [x + epoch for x in t.stamps]
     if fmt == "euroc":
         out = []
         for t in (ref, est1, est2):
